@@ -188,10 +188,44 @@ def run_case(chk, r, lpts, kind, shapes, how, index_kind, clash, tag):
         chk.count("class:" + cls.rstrip("/"))
 
 
+def dask_left_frame_arguments(chk, r, tier):
+    """a Dask left frame: the result - column names and their order, index name, rows - is that of the pandas join with the same
+    arguments, whether the suffixes are left at their defaults, spelled out, or chosen by the caller; what the lazy frame declares
+    is what its partitions hold"""
+    import dask
+    import dask.dataframe as dd
+    from spatialpandas import GeoDataFrame, sjoin
+    shapes = [[[0, 0, 7, 0, 7, 7, 0, 7, 0, 0]], [[5, 5, 13, 5, 13, 13, 5, 13, 5, 5]], [[20, 20, 22, 20, 22, 22, 20, 20]]]
+    for k, how in enumerate(("inner", "left") * (1 if tier == "quick" else 3)):
+        lpts = [[r.randint(0, 14), r.randint(0, 14)] for _ in range(9)]
+        ldf = GeoDataFrame({"pts": geo.make_array("point", lpts, "float64"), "v": list(range(9)), "only_l": [f"l{i}" for i in range(9)]},
+                           index=pd.Index(range(100, 109), name=("lid" if k % 2 else None)))
+        rdf = GeoDataFrame({"shape": geo.make_array("polygon", shapes, "float64"), "v": [10, 11, 12], "only_r": ["a", "b", "c"]})
+        for suf in ({}, dict(lsuffix="left", rsuffix="right"), dict(lsuffix="pt", rsuffix="poly"), dict(rsuffix="shp")):
+            rep = dict(api="sjoin", how=how, left="DaskGeoDataFrame", left_points=lpts, kind="polygon", right_shapes=shapes, **suf)
+            try:
+                want = sjoin(ldf, rdf, how=how, **suf)
+                lazy = sjoin(dd.from_pandas(ldf, npartitions=3), rdf, how=how, **suf)
+                got = lazy.compute(scheduler="synchronous")
+                chk.evaluated(len(got))
+                if list(got.columns) != list(want.columns) or list(lazy.columns) != list(want.columns) or got.index.name != want.index.name:
+                    chk.violation(f"sjoin/{how}/dask-left-frame-column-names-differ-from-pandas/{'default' if not suf else 'explicit'}-suffixes",
+                                  dict(rep, declared=[str(c) for c in lazy.columns], computed=[str(c) for c in got.columns],
+                                       pandas=[str(c) for c in want.columns], index_names=[str(got.index.name), str(want.index.name)]), size=9)
+                    continue
+                rows = lambda f: sorted(json.dumps([str(i)] + [str(x) for x in row], default=str) for i, row in zip(f.index, f.drop(columns=["pts"]).values.tolist()))  # noqa: E731
+                if rows(got) != rows(want):
+                    chk.violation(f"sjoin/{how}/dask-left-frame-rows-differ-from-pandas", dict(rep, got=rows(got)[:6], pandas=rows(want)[:6]), size=9)
+            except Exception as e:  # noqa: BLE001
+                chk.violation(f"sjoin/{how}/dask-left-frame-raises-{common.err_kind(e)}", dict(rep, error=repr(e)[:300]), size=9)
+    chk.count("dask-left-frame-arguments")
+
+
 def run_cases(chk, tier):
     r = common.rng(PROP)
     from .c02 import families
     fam = families(tier)
+    dask_left_frame_arguments(chk, r, tier)
     n_cases = 50 if tier == "quick" else 500
     kinds = ["point", "multipoint", "line", "multiline", "polygon", "multipolygon"]
     for k in range(n_cases):
